@@ -56,6 +56,7 @@ def run(chk):
             if (A[0] == 'PANIC') != (B[0] == 'PANIC'):
                 chk.violation('impl-vs-impl', 'construction panics depending on the unused coordinates (record %d, %s): %s / %s' % (r.id, r.family, ' '.join(A[:4]), ' '.join(B[:4])), rp, key='unused-coords')
             npanic += 1
+            chk.panic_record(r, ' '.join((A if A[0] == 'PANIC' else B)[:6]), rp)
             continue
         if A != B:
             k = next(i for i in range(min(len(A), len(B))) if A[i] != B[i]) if len(A) == len(B) else -1
